@@ -37,4 +37,10 @@ VARIANTS = [
     V("N-seek-capped-other-order", "src/soundevent/audio/io.py", "        fp.seek(min(offset, fp.frames))\n", "        fp.seek(min(fp.frames, offset))\n", None),
     V("N-seek-capped-conditional", "src/soundevent/audio/io.py", "        fp.seek(min(offset, fp.frames))\n", "        fp.seek(offset if offset < fp.frames else fp.frames)\n", None),
     V("N-seek-capped-through-local-and-len", "src/soundevent/audio/io.py", "        fp.seek(min(offset, fp.frames))\n", "        position = min(offset, len(fp))\n        fp.seek(position)\n", None),
+    # mutation audit, third operator set: axis names and coordinate kinds
+    V("recording-axes-named-channel-time", "src/soundevent/audio/io.py", "        dims=(Dimensions.time.value, Dimensions.channel.value),", "        dims=(Dimensions.channel.value, Dimensions.time.value),", "R15.7", occurrence=0),
+    V("spectrogram-axes-named-time-frequency", "src/soundevent/audio/spectrograms.py", '        dims=("frequency", "time", "channel"),', '        dims=("time", "frequency", "channel"),', "R15.7"),
+    V("spectrogram-time-axis-gets-frequency-variable", "src/soundevent/audio/spectrograms.py", "            Dimensions.frequency.value: create_frequency_dim_from_array(", "            Dimensions.time.value: create_frequency_dim_from_array(", "R15.7",
+      also=(("src/soundevent/audio/spectrograms.py", "            Dimensions.time.value: create_time_dim_from_array(", "            Dimensions.frequency.value: create_time_dim_from_array("),)),
+    V("N-recording-axes-from-the-coordinate-mapping", "src/soundevent/audio/io.py", "        dims=(Dimensions.time.value, Dimensions.channel.value),\n", "", None, occurrence=0),
 ]
